@@ -116,6 +116,13 @@ type EnvCfg struct {
 	Val  Tok `json:"val"`
 }
 
+// SetCfg - one SetValue(name, vals...) call made by the program after the definitions and before Parse.
+// Opt = 0: a name that is not declared.
+type SetCfg struct {
+	Opt  int   `json:"opt"`
+	Vals []Tok `json:"vals"`
+}
+
 type Cfg struct {
 	// Late - SetMode / SetMapKeysToLower and the root's unknown mode / require-order are applied AFTER the commands
 	// were declared (the order of these calls is not part of the documented protocol; the outcome must not depend on it)
@@ -128,6 +135,7 @@ type Cfg struct {
 	Nodes []NodeCfg `json:"nodes"`
 	Opts  []OptCfg  `json:"opts"`
 	Env   []EnvCfg  `json:"env"`
+	Sets  []SetCfg  `json:"sets"`
 }
 
 type OrcEntry struct {
@@ -195,7 +203,8 @@ type Res struct {
 	NonDet  bool          `json:"nondet"`  // repeated executions of this very case differed (C20)
 	RawHash string        `json:"rawhash"` // hash of everything observable incl. full messages and texts
 	Exits   []int         `json:"exits"`
-	Raw     string        `json:"-"` // everything observable, for run-to-run comparison (C20)
+	SetErrs []string      `json:"seterrs"` // error kind of every SetValue call of the definition ("" = nil)
+	Raw     string        `json:"-"`       // everything observable, for run-to-run comparison (C20)
 }
 
 // Def - one definition line of a trace / family file.
@@ -248,6 +257,14 @@ func (c *Cfg) Normalize() {
 	}
 	if c.Opts == nil {
 		c.Opts = []OptCfg{}
+	}
+	if c.Sets == nil {
+		c.Sets = []SetCfg{}
+	}
+	for i := range c.Sets {
+		if c.Sets[i].Vals == nil {
+			c.Sets[i].Vals = []Tok{}
+		}
 	}
 	for i := range c.Nodes {
 		n := &c.Nodes[i]
